@@ -67,6 +67,7 @@ func vcN() *vV0      { return &vV0{} } // provided with Name("a")
 func vcP(vcPIn) *vV3 { return &vV3{} }
 func vcM(*vV4) *vV1  { return &vV1{} }
 func vcX(*vV1) *vV0  { return &vV0{} } // closes a cycle with vcB
+func vcGD(*vV4) *vV0 { return &vV0{} } // group feeder with a dependency, provided with Group("g")
 func vcGF() (*vV0, error) { // group feeder that may fail, provided with Group("g")
 	if vC19Fail {
 		return nil, errors.New("vcGF failed")
@@ -103,6 +104,7 @@ func vCatalogue() []vcDesc {
 		{fn: vcP, name: "vcP", params: []vcNode{{t: "*dig.vV0", name: "a"}}, results: []vcNode{{t: "*dig.vV3"}}},
 		{fn: vcM, name: "vcM", params: []vcNode{{t: "*dig.vV4"}}, results: []vcNode{{t: "*dig.vV1"}}},
 		{fn: vcX, name: "vcX", params: []vcNode{{t: "*dig.vV1"}}, results: []vcNode{{t: "*dig.vV0"}}},
+		{fn: vcGD, name: "vcGD", opts: []ProvideOption{Group("g")}, params: []vcNode{{t: "*dig.vV4"}}, results: []vcNode{{t: "*dig.vV0", group: "g"}}},
 		{fn: vcGF, name: "vcGF", opts: []ProvideOption{Group("g")}, results: []vcNode{{t: "*dig.vV0", group: "g"}}},
 	}
 }
